@@ -72,6 +72,8 @@ fn main() {
         "policy" => sat::policy::run(&args),
         "uskmac" => sat::uskmac::run(&args),
         "tamper" => sat::tamper::run(&args),
+        "conc" => sat::conc::run(&args),
+        "fresh" => sat::conc::fresh(&args),
         "pke" => sat::pke::run(&args),
         "wire" => sat::wire::run(&args),
         "features" => {
